@@ -14,5 +14,6 @@ PROP = {
         "lanes": [
             native("c08"),
             miri("c08", seeds_q=0, seeds_t=32, args={"miri-cases": 32, "miri-join": 6}),
+            native("c07o", pkg="monx", name="otlp-e2e", args={"prop": "C08"}, timeout={"quick": 900, "thorough": 3600}),
         ],
     }
